@@ -10,16 +10,18 @@ from . import c05, c11
 LEVEL = 'other'
 EXPLANATION = (
     'Interleavings are not explored.  What is decided is the lock discipline that makes exactly-once hold in every '
-    'interleaving (CPython deque operations being atomic is the stated assumption): (R10.1) in the port class family '
-    '(every subclass of BasePort in mido/ports.py and mido/sockets.py, methods resolved through the MRO) every access to the '
-    'pending deque lies inside a `with self._lock` region or inside a device hook (_send/_receive) whose every call site in '
-    'the family is inside such a region; (R10.2) every popleft() is in the same region as the emptiness test that guards '
-    'it; (R10.3) a class that swaps the lock for DummyLock / _locking=False must not let a base-class method that relies '
-    'on the lock touch a deque it shares with another port object: the lock-relying methods must be overridden by '
-    'forwarding methods that never name the deque; (R10.4) the "holds own lock while calling a lock-taking method of another '
-    'port" graph over the family has no cycle; (R10.5) sleep() is never called inside a lock region or a device hook, '
-    'and generators that sleep are called from hooks only with block=False; (R10.6) the device receives a copy '
-    '(abstractly interpreted send, see C11); (R10.7) ParserQueue feeds and drains under one lock (C05 R05.6).')
+    'interleaving (CPython deque operations being atomic is the stated assumption).  An Eraser-style audit runs over the event '
+    'logs of abstract executions of every public call (receive with and without pending messages, blocking receive with delayed '
+    'delivery, poll, iter_pending, iteration with the device closing, send, reset, panic, close) of BaseInput, BaseOutput, '
+    'BaseIOPort, EchoPort, IOPort and MultiPort built by their real constructors on lock/queue/device doubles: (R10.1) every use '
+    'of a pending queue happens while a real lock is held and one lock is common to all uses of that queue; (R10.2) every popleft() '
+    'happens in the same acquisition of the lock as the emptiness test that guards it; (R10.3) the constructor gives ordinary ports '
+    'a real re-entrant lock and the wrapper a no-op one, and the wrapper reaches the queue it shares only under the input port\'s '
+    'lock; (R10.5) device hooks run with the port lock held, sleep() with none; (R10.8) no call raises.  Because the audit sees only '
+    'the methods the scenarios run, a syntactic guarded-by sweep (aliases of self._lock / self._messages followed) covers every '
+    'method of every subclass of BasePort in mido/ports.py and mido/sockets.py; (R10.4) the "holds own lock while calling a '
+    'lock-taking method of another port" graph has no cycle; (R10.6) the device receives a copy (abstractly interpreted send, see '
+    'C11); (R10.7) ParserQueue feeds and drains under one lock (C05 R05.6).')
 TRUSTED = ['midolint program model (MRO, method resolution)', 'CPython: single deque operations are atomic; RLock semantics']
 ASSUMPTIONS = ['observed histories under real schedules are not enumerated (needs schedule exploration, another technique)',
                'backends that override send/receive with their own queue and lock (rtmidi, amidi) are outside the analysed family; '
